@@ -377,19 +377,23 @@ class PrefetchedCourierServer(CourierServer):
     """Stop the prefetch if the generator is not exhausted."""
     if self._generator is not None:
       with self._generator_lock:
-        if not self._generator.exhausted:
-          logging.warning(
-              'chainable: %s',
-              'A generator is reset while the previous is unexhausted.',
-          )
-          if fatal:
-            e = RuntimeError('A generator was stopped before exhausted.')
-          else:
-            e = TimeoutError('A generator was stopped before exhausted.')
-          self._generator.maybe_stop(e)
-          if self._enqueue_thread:
-            self._enqueue_thread.join()
-          logging.info('chainable: %s', 'Prefetching stopped.')
+        self._stop_prefetch_locked(fatal)
+
+  def _stop_prefetch_locked(self, fatal: bool = False):
+    """Same as _stop_prefetch, the caller holds the generator lock."""
+    if self._generator is not None and not self._generator.exhausted:
+      logging.warning(
+          'chainable: %s',
+          'A generator is reset while the previous is unexhausted.',
+      )
+      if fatal:
+        e = RuntimeError('A generator was stopped before exhausted.')
+      else:
+        e = TimeoutError('A generator was stopped before exhausted.')
+      self._generator.maybe_stop(e)
+      if self._enqueue_thread:
+        self._enqueue_thread.join()
+      logging.info('chainable: %s', 'Prefetching stopped.')
 
   def _init_iterator(self, maybe_lazy):
     """Initialize the iterator."""
@@ -400,8 +404,11 @@ class PrefetchedCourierServer(CourierServer):
     start_time = time.time()
     maybe_lazy = lazy_fns.maybe_unpickle(maybe_lazy)
     logging.info('chainable: %s', f'Initializing a generator: {maybe_lazy}')
-    self._stop_prefetch()
     with self._generator_lock:
+      # Stopping the generator in place and installing the new one is one step:
+      # an overlapping request would otherwise overwrite, without stopping it,
+      # the generator this request installs.
+      self._stop_prefetch_locked()
       logging.debug('chainable: %s', f'Constructing generator: {maybe_lazy}')
       result = lazy_fns.maybe_make(maybe_lazy)
       if not isinstance(result, Iterable):
